@@ -61,6 +61,10 @@ Programs ==
     duplit   |-> <<PrintS(Item(Hash(<<LS(kA), LS(kA)>>, <<LI(1), LI(2)>>), LS(kA))), Set("h", Hash(<<LS(kA), LS(kB), LS(kA)>>, <<LI(1), LI(2), LI(3)>>)), PrintS(Attr(Var("h"), "a")),
                    PrintS(Filt("first", Hash(<<LI(1), LS(<<49>>)>>, <<LS(<<120>>), LS(<<121>>)>>), <<>>)), PrintS(Filt("length", Var("h"), <<>>))>>,
     mergecollide |-> <<PrintS(Filt("join", Filt("merge", M, <<Hash(<<>>, <<>>)>>), <<LS(<<44>>)>>)), For("v", "k", Filt("merge", Hash(<<LS(<<122>>)>>, <<LI(0)>>), <<M>>), KV, <<>>, FALSE)>>,
+    \* subscripts whose index is computed (a number that is not the key's own Go type, a string built at run time)
+    ilookup  |-> <<PrintS(Item(M, LI(1))), T(<<124>>), PrintS(Item(M, LS(<<49>>))), T(<<124>>), PrintS(Item(M, Bin("+", LI(0), LI(1)))), T(<<124>>),
+                   PrintS(Item(M, Bin("~", LS(<<>>), LI(1)))), T(<<124>>), PrintS(Item(M, Bin("*", LI(3), LI(3)))), T(<<124>>), PrintS(Item(M, Bin("~", LI(9), LS(<<>>)))), T(<<124>>),
+                   PrintS(Item(M, Bin("-", LI(11), LI(1)))), T(<<124>>), For1("i", Lit(VL(<<VI(1), VI(9)>>)), <<PrintS(Item(M, Bin("+", Var("i"), LI(0))))>>)>>,
     nested   |-> <<For("inner", "k", M, <<PrintS(Var("k")), T(<<58>>), For("v", "j", Var("inner"), <<PrintS(Var("j")), PrintS(Var("v"))>>, <<>>, FALSE), T(<<59>>)>>, <<>>, FALSE)>> ]
 Applicable(pn, mn) ==
     /\ (pn = "nested" <=> mn = "nest")
@@ -69,13 +73,14 @@ Applicable(pn, mn) ==
     /\ (pn = "merged" => mn \in {"any3", "any4"})
     /\ (pn = "duplit" => mn = "any3")
     /\ (pn = "mergecollide" => mn \in {"ikeys2", "ikeys3", "ikeys1"})
-    /\ (mn \in {"ikeys2", "ikeys3", "ikeys1"} => pn \in {"forkv", "forv", "first", "last", "mergecollide", "length"})
+    /\ (pn = "ilookup" => mn \in {"ikeys2", "ikeys3", "ikeys1"})
+    /\ (mn \in {"ikeys2", "ikeys3", "ikeys1"} => pn \in {"forkv", "forv", "first", "last", "mergecollide", "length", "ilookup"})
 
 MapCases == {[fam |-> "map", p |-> pn, m |-> mn] : pn \in DOMAIN Programs, mn \in DOMAIN Maps}
 Ref(c, perm) == Render(MkW(("main" :> Programs[c.p]), {}, {}, NoFault), "main", ("m" :> PermMap(Maps[c.m], perm)))
 Sensitive(c) == Cardinality({Ref(c, perm).out : perm \in Perms(Len(Maps[c.m].ks))}) > 1
 \* hash literals in the template are sensitive by construction (their order is the implementation's)
-LitSensitive(c) == c.p \in {"forlit", "forlitv", "setlit", "duplit", "mergecollide"} \/ c.m \in {"ikeys2", "ikeys3", "ikeys1"}
+LitSensitive(c) == c.p \in {"forlit", "forlitv", "setlit", "duplit", "mergecollide", "ilookup"} \/ c.m \in {"ikeys2", "ikeys3", "ikeys1"}
 
 \* ---- date formats ----------------------------------------------------------------------------------
 FmtAlphabet == {100, 68, 106, 108, 70, 109, 77, 110, 89, 121, 97, 65, 103, 71, 104, 72, 105, 115, 45, 58, 32, 44, 47}
@@ -113,6 +118,31 @@ AddrProg(pr) == CASE pr = "print"   -> <<PrintS(Var("v"))>>
                   [] pr = "spaceless" -> <<PrintS(Filt("spaceless", Var("v"), <<>>))>>
                   [] pr = "jsonish" -> <<PrintS(Filt("upper", Bin("~", Var("v"), LS(<<33>>)), <<>>))>>
 
+\* ---- programs whose result the reference semantics fixes, rendered again and again with the SAME context value -------
+\* typed lists shown in their given order before and after an order-changing filter; the two spellings of one pattern
+I3 == <<VI(3), VI(1), VI(2)>>
+S3 == <<VS(<<99>>), VS(<<97>>), VS(<<98>>)>>
+ListData == [ any |-> VL(I3), ints |-> VLg(I3, "ints"), strs |-> VLg(S3, "strs"), arr3 |-> VLg(I3, "arr3"), tags |-> VLg(S3, "tags"),
+              i64s |-> VLg(I3, "i64s"), f32s |-> VLg(I3, "f32s"), f64s |-> VLg(I3, "f64s"), anycap |-> VLg(I3, "anycap"), intscap |-> VLg(I3, "intscap") ]
+XJ(e) == PrintS(Filt("join", e, <<LS(<<44>>)>>))
+XV == Var("x")
+PureProgs == [ sort     |-> <<XJ(XV), T(<<124>>), XJ(Filt("sort", XV, <<>>)), T(<<124>>), XJ(XV)>>,
+               reverse  |-> <<XJ(XV), T(<<124>>), XJ(Filt("reverse", XV, <<>>)), T(<<124>>), XJ(XV)>>,
+               sortinc  |-> <<Inc(LS(NT.t1)), T(<<124>>), XJ(XV)>>,
+               forsort  |-> <<For1("i", Filt("sort", XV, <<>>), <<PrintS(Var("i"))>>), T(<<124>>), For1("i", XV, <<PrintS(Var("i"))>>)>>,
+               setsort  |-> <<Set("s", Filt("sort", XV, <<>>)), Set("r", Filt("reverse", Var("s"), <<>>)), XJ(Var("s")), T(<<124>>), XJ(Var("r")), T(<<124>>), XJ(XV)>>,
+               slice    |-> <<XJ(Filt("sort", Filt("slice", XV, <<LI(0), LI(2)>>), <<>>)), T(<<124>>), XJ(Filt("merge", XV, <<XV>>)), T(<<124>>), XJ(XV)>>,
+               first    |-> <<PrintS(Filt("first", XV, <<>>)), PrintS(Filt("last", XV, <<>>)), PrintS(Filt("first", Filt("sort", XV, <<>>), <<>>)), PrintS(Filt("first", XV, <<>>))>> ]
+PureListCases == {[fam |-> "pure", p |-> pn, d |-> d] : pn \in DOMAIN PureProgs, d \in DOMAIN ListData}
+MatchProgs == [ flagfirst |-> <<PrintS(Cond(Bin("matches", XV, LS(<<47, 81, 47, 105>>)), LS(<<121>>), LS(<<110>>))), PrintS(Cond(Bin("matches", XV, LS(<<47, 81, 47>>)), LS(<<121>>), LS(<<110>>)))>>,
+                flaglast  |-> <<PrintS(Cond(Bin("matches", XV, LS(<<47, 113, 47>>)), LS(<<121>>), LS(<<110>>))), PrintS(Cond(Bin("matches", Filt("upper", XV, <<>>), LS(<<47, 113, 47>>)), LS(<<121>>), LS(<<110>>))),
+                                PrintS(Cond(Bin("matches", Filt("upper", XV, <<>>), LS(<<47, 113, 47, 105>>)), LS(<<121>>), LS(<<110>>)))>>,
+                twotp     |-> <<Inc(LS(NT.t2)), PrintS(Cond(Bin("matches", XV, LS(<<47, 90, 47>>)), LS(<<121>>), LS(<<110>>)))>> ]
+PureMatchCases == {[fam |-> "pure", p |-> pn, d |-> "str"] : pn \in DOMAIN MatchProgs}
+PureTp(c) == ("main" :> (IF c.d = "str" THEN MatchProgs[c.p] ELSE PureProgs[c.p])) @@ ("t1" :> <<XJ(Filt("sort", XV, <<>>))>>)
+             @@ ("t2" :> <<PrintS(Cond(Bin("matches", XV, LS(<<47, 90, 47, 105>>)), LS(<<121>>), LS(<<110>>)))>>)
+PureCtx(c) == IF c.d = "str" THEN ("x" :> VS(IF c.p = "twotp" THEN <<122>> ELSE <<113>>)) ELSE ("x" :> ListData[c.d])
+
 Runs(tp) == <<[label |-> "repeat", tp |-> tp, xcalls |-> [id \in {} |-> 0], repeat |-> 24],
               [label |-> "reversed-insertion", tp |-> tp, xcalls |-> [id \in {} |-> 0], repeat |-> 8, rev |-> TRUE]>>
 NoExpect == [ok |-> TRUE, anyoutcome |-> TRUE, out |-> <<>>, noout |-> TRUE, err |-> "", calls |-> [id \in {} |-> 0]]
@@ -144,6 +174,14 @@ CaseOf(c) ==
             ctx |-> IncWithCtx, cfg |-> [sandbox |-> TRUE, allowf |-> {}, allowfn |-> {}],
             runs |-> Runs(Sources(IncWithTp(c), LMin)),
             expect |-> [ok |-> ref.ok, out |-> ref.out, err |-> ref.err, calls |-> [id \in {} |-> 0]]]
+      [] c.fam = "pure" ->
+           LET ref == Render(MkW(PureTp(c), {}, {}, NoFault), "main", PureCtx(c)) IN
+           [prop |-> "C03", key |-> ToJson(c), entry |-> "main", rel |-> "same",
+            tags |-> {"fam:pure", "p:" \o c.p, "d:" \o c.d},
+            ctx |-> PureCtx(c),
+            runs |-> <<[label |-> "shared", tp |-> Sources(PureTp(c), LMin), xcalls |-> [id \in {} |-> 0], shared |-> 3, again |-> 2],
+                       [label |-> "repeat", tp |-> Sources(PureTp(c), LMin), xcalls |-> [id \in {} |-> 0], repeat |-> 3]>>,
+            expect |-> [ok |-> ref.ok, out |-> ref.out, err |-> ref.err, calls |-> [id \in {} |-> 0]]]
       [] c.fam = "addr" ->
            [prop |-> "C03", key |-> ToJson(c), entry |-> "main", rel |-> "same",
             tags |-> {"fam:addr", "kind:" \o c.kind, "prog:" \o c.prog},
@@ -151,11 +189,12 @@ CaseOf(c) ==
             runs |-> Runs(("main" :> Source(AddrProg(c.prog), LMin))),
             expect |-> NoExpect]
 
-Parts == {"map", "date", "addr", "dateint", "incwith"}
+Parts == {"map", "date", "addr", "dateint", "incwith", "pure"}
 Init == cs \in {[part |-> p] : p \in Parts}
 Next == "part" \in DOMAIN cs /\ cs' \in (CASE cs.part = "map" -> {c \in MapCases : Applicable(c.p, c.m)}
                                             [] cs.part = "date" -> DateCases [] cs.part = "addr" -> AddrCases
-                                            [] cs.part = "dateint" -> DateIntCases [] cs.part = "incwith" -> IncWithCases)
+                                            [] cs.part = "dateint" -> DateIntCases [] cs.part = "incwith" -> IncWithCases
+                                            [] cs.part = "pure" -> PureListCases \cup PureMatchCases)
 Spec == Init /\ [][Next]_cs
 IsCase == "fam" \in DOMAIN cs
 Emit == IsCase => PrintT(ToJson(CaseOf(cs)))
